@@ -150,7 +150,9 @@ TrSeek == IsEvent("seek") /\ NoPanic /\ Ev.g \in DOMAIN jit /\ ObsOk(jit[Ev.g]) 
 TrDebug == IsEvent("debug") /\ NoPanic /\ UNCHANGED jit
 TrDrop == IsEvent("drop") /\ UNCHANGED jit
 (* JitterRng::new() with the platform timer: a smoke run; only "did not panic" is specified *)
-TrStdNew == (IsEvent("jit_std_new") \/ IsEvent("jit_std_new_parallel")) /\ NoPanic /\ UNCHANGED jit
+TrStdNew == /\ (IsEvent("jit_std_new") \/ IsEvent("jit_std_new_parallel")) /\ NoPanic
+            /\ Has(Ev, "half_after_new") => Expect("a generator fresh from JitterRng::new() owes no half", FALSE, Ev.half_after_new)
+            /\ UNCHANGED jit
 
 Init == l = 1 /\ jit = <<>>
 Next == \/ TrReset \/ TrTimer \/ TrNew \/ TrSetRounds \/ TrNextU64 \/ TrNextU32 \/ TrFill \/ TrTimerStats
